@@ -147,3 +147,14 @@ Fixpoint obs_match (r : @eres Q) (o : obs) {struct r} : bool :=
 Record caseE := { x_v : variants; x_S : obj Q; x_ord : option ord; x_cast : bool; x_inp : @inp Q; x_out : obs }.
 Definition checkE (k : caseE) : bool :=
   obs_match (element_opt (x_v k) (x_ord k) (x_cast k) (x_S k) (x_inp k)) (x_out k).
+
+(* ------------------------------------------------------------ element indexing *)
+From Verif Require Import C20.Indexing.
+Definition gres_beq (a b : @gres Q) : bool :=
+  match a, b with
+  | GScalar x, GScalar y => Qeq_bool x y
+  | GTens t d, GTens t' d' => tsp_beq t t' && all2 Qeq_bool d d'
+  | _, _ => false
+  end.
+Record caseG := { g_t : tsp Q; g_data : list Q; g_idx : list idx1; g_out : res (@gres Q) }.
+Definition checkG (k : caseG) : bool := res_beq gres_beq (tens_getitem (g_t k) (g_data k) (g_idx k)) (g_out k).
